@@ -1,3 +1,2 @@
--- This module serves as the root of the `OrixModel` library.
--- Import modules here that should be built as part of the library.
-import OrixModel.Basic
+import OrixModel.Scalar
+import OrixModel.Quat
